@@ -334,6 +334,10 @@ impl World {
         let pick = if let Some((t, _)) = self.solo_active
             && self.alive[t]
         {
+            // the recorded schedule contains the picks made inside solo windows too
+            if self.strat == Strategy::Replay {
+                self.replay_pos += 1;
+            }
             t
         } else if self.strat == Strategy::Replay
             && self.replay_pos >= self.replay.len()
